@@ -167,6 +167,8 @@ class StmtMixin:
                 st.pc.append(f"(= (seq.len {r.s}) (+ (seq.len {cur.s}) 1))")
                 st.pc.append(f"(forall ((|q_a| Int)) (! (=> (and (>= |q_a| 0) (< |q_a| (seq.len {cur.s}))) (= (seq.nth {r.s} |q_a|) (seq.nth {cur.s} |q_a|))) :pattern ((seq.nth {r.s} |q_a|))))")
                 st.pc.append(f"(= (seq.nth {r.s} (seq.len {cur.s})) {v.s})")
+                if self.cur_contract.get("on_yield"):
+                    self.cur_contract["on_yield"](self, st, cur, r, v)     # facts about contract-level abstractions of the yielded sequence
                 st.ghost["yielded"] = r
                 return
             if isinstance(s.value, ast.YieldFrom) and self.cur_contract.get("yields") is not None:
@@ -585,6 +587,8 @@ class Domain:
         state.env[f"$idx{idx}"] = marker
         state.env["$viscur"] = marker
         state.env["$idxcur"] = marker
+        if getattr(self, "xs", None) is not None:
+            state.env[f"$it{idx}"] = self.xs      # iterated(idx): the sequence the loop runs over
 
 
 class SetDomain(Domain):
